@@ -20,7 +20,7 @@ ASSUMPTIONS = _x1.X1_ASSUMPTIONS + ["an update's callbacks run atomically at a l
 PUT = [("put", "sig", 7), ("@once", "put", "pause", "suspend")]  # each kind at most once per schedule
 INT = [("pause",), ("suspend", "none")]
 SPECS = {
-    "quick": [spec("monitor2", INT, bound=1), spec("monitor1", PUT, bound=1), spec("monitor1short", PUT + INT, bound=2)],
+    "quick": [spec("monitor2", INT, bound=1), spec("monitor1", PUT, bound=1), spec("monitor1short", PUT + INT, bound=2), spec("monitorpp", [("put", "sig", 7), ("suspend", "none")], bound=1)],
     "thorough": [spec("monitor2", INT, bound=2), spec("monitor2", INT, bound=1, a=1), spec("monitor1", PUT + INT, bound=2), spec("monitor1short", PUT + INT, bound=3), spec("monitor1short", PUT + INT, bound=2, a=1)],
 }
 
